@@ -368,6 +368,11 @@ def run_drill(case, rec, rng):
             if rng.random() < 0.5:
                 h.add_data({"iv": {"from-to": np.c_[np.arange(3.0), np.arange(3.0) + 1.0], "values": np.arange(3.0) + 100 * i}}, property_group="itab")
                 names.append("iv")
+            if rng.random() < 0.6:
+                # a value for the whole hole: data in no property group at all
+                h.add_data({"note": {"values": np.r_[7.0 + i], "association": "OBJECT"}})
+                names.append("note")
+                rec.see("hole-data-in-no-group")
             holes[str(h.uid)] = {"name": f"h{i}", "data": names}
         removed_holes, removed_data = set(), []
         all_victims, copied_holes = set(), set()
@@ -424,6 +429,15 @@ def run_drill(case, rec, rng):
                 gc.collect()
                 all_victims.add(cu)
                 judge_concat(rec, ws, grp, {cu}, "remove-data:" + via, "ConcatenatedData", hole=h, name=cname)
+                if cname == "note" and rng.random() < 0.5:
+                    # a later operation on the survivor: the freed name is used again
+                    try:
+                        h.add_data({"note": {"values": np.r_[99.0], "association": "OBJECT"}})
+                        holes[u]["data"].append("note")
+                        rec.see("name-reused-after-removal")
+                    except Exception as exc:  # noqa: BLE001
+                        rec.fail("C05.followup-raises", op="re-add-after-removal", cls="ConcatenatedData", attr=type(exc).__name__, detail=f"adding data under the name of removed data raised {type(exc).__name__}: {exc}")
+                        break
                 del h
             elif k == "rm_protected" and live:
                 u = rng.choice(live)
@@ -503,6 +517,8 @@ def judge_concat(rec, ws, grp, victims, where, cls, hole=None, name=None, copied
         rec.check("C05.child-list", not (hk & victims), op=where, cls="ConcatenatedDrillhole", attr="", detail=f"hole children still contain removed data {sorted(hk & victims)[:2]}")
         got = [e for e in hole.get_entity(name) if e is not None]
         rec.check("C05.lookup", not got, op=where, cls=cls, attr="by-name", detail=f"hole.get_entity({name!r}) still yields the removed data")
+        listed = hole.get_data_list()
+        rec.check("C05.lookup", name not in listed, op=where, cls=cls, attr="by-name:listing", detail=f"hole.get_data_list() still lists the removed {name!r}: {listed}")
         for pg in hole.property_groups or []:
             bad = {str(p) for p in (pg.properties or [])} & victims
             rec.check("C05.pg-mentions-removed", not bad, op=where, cls="ConcatenatedPropertyGroup", attr="live", detail=f"group {pg.name!r} still lists removed data")
